@@ -256,6 +256,30 @@ def type_tag_of(v):
     return "?"
 
 
+def canon_index(v):
+    """Canonical text of a folded index value."""
+    def one(x):
+        if isinstance(x, slice):
+            return f"{'' if x.start is None else x.start}:{'' if x.stop is None else x.stop}" + ("" if x.step is None else f":{x.step}")
+        if x is Ellipsis:
+            return "..."
+        if x is None:
+            return "None"
+        if isinstance(x, bool) or not isinstance(x, (int, Sym, Opaque, tuple, list)):
+            raise Refuse("index kind")
+        if isinstance(x, (tuple, list)):
+            return ("(" if isinstance(x, tuple) else "[") + ", ".join(one(y) for y in x) + (")" if isinstance(x, tuple) else "]")
+        return repr(x)
+    if not isinstance(v, tuple):
+        return one(v)
+    el = list(v)
+    while el and (el[-1] is Ellipsis or (isinstance(el[-1], slice) and el[-1] == slice(None) and not any(e is Ellipsis for e in el))):
+        el.pop()
+    if not el:
+        return "..."
+    return ", ".join(one(x) for x in el)
+
+
 class _Return(Exception):
     def __init__(self, value):
         self.value = value
@@ -514,7 +538,12 @@ class Folder:
         return True
 
     def _sym_index(self, sl, env):
-        """Text of an index expression with its foldable parts folded (symbolic mode)."""
+        """Text of an index expression with its foldable parts folded (symbolic mode).  An index that folds completely is written
+        in one canonical way (`:-1, ..., 0`; a trailing ellipsis / trailing full slices are dropped), however it was spelled."""
+        try:
+            return canon_index(self.ev(sl, env))
+        except (Refuse, Raised):
+            pass
         if isinstance(sl, ast.Tuple):
             return ", ".join(self._sym_index(e, env) for e in sl.elts)
         if isinstance(sl, ast.Slice):
